@@ -196,21 +196,25 @@ def r09_7(ctx) -> None:
     eng = ctx.eng
     cc = eng.prog.func("rfc7519.claims:convert_claims")
     cfg = cfg_of(cc)
-    loops = [l for l in cfg.nodes if l.kind == "loop"]
-    ok = False
-    for l in loops:
-        it = l.ast.iter
-        if isinstance(it, (ast.List, ast.Tuple, ast.Set)) and {const_value(e) for e in it.elts} == {"exp", "iat", "nbf"}:
-            kv = norm(l.ast.target)
-            stores = [n for n in fn_nodes(cc) if isinstance(n, ast.Assign) and isinstance(n.targets[0], ast.Subscript) and norm(n.targets[0].slice) == kv]
-            for st in stores:
-                v = st.value
-                if isinstance(v, ast.Call) and norm(v.func) == "calendar.timegm" and v.args and norm(v.args[0]).endswith(".utctimetuple()"):
-                    cn = cfg.node_of(st)
-                    tests = [t for t in cfg.nodes if t.kind == "test" and isinstance(t.ast, ast.Call) and isinstance(t.ast.func, ast.Name) and t.ast.func.id == "isinstance"
-                             and "datetime" in norm(t.ast.args[1])]
-                    if tests and cn is not None and all(cn not in cfg.reachable(cfg.entry, edge_filter=lambda a, b, lab, _t=t: not (a is _t and lab == "true")) for t in tests[:1]):
-                        ok = True
+    # every one of exp / iat / nbf that holds a datetime is replaced by calendar.timegm(<it>.utctimetuple()) - written as a loop over the three names or
+    # unrolled (the canonical form unrolls loops over short constant displays)
+    covered = set()
+    for st in [n for n in fn_nodes(cc) if isinstance(n, ast.Assign) and isinstance(n.targets[0], ast.Subscript)]:
+        v = st.value
+        if not (isinstance(v, ast.Call) and norm(v.func) == "calendar.timegm" and v.args and norm(v.args[0]).endswith(".utctimetuple()")):
+            continue
+        cn = cfg.node_of(st)
+        guards = [t for p_ in (cfg.guards_of(cn) if cn is not None else []) for t, o in p_ if o and t.kind == "test" and isinstance(t.ast, ast.Call) and isinstance(t.ast.func, ast.Name)
+                  and t.ast.func.id == "isinstance" and "datetime" in norm(t.ast.args[1])]
+        if not guards:
+            continue
+        key = st.targets[0].slice
+        if isinstance(key, ast.Constant):
+            covered.add(key.value)
+        elif isinstance(key, ast.Name):
+            for l in [l for l in cfg.nodes if l.kind == "loop" and isinstance(l.ast, ast.For) and norm(l.ast.target) == key.id and isinstance(l.ast.iter, (ast.List, ast.Tuple, ast.Set))]:
+                covered |= {const_value(e) for e in l.ast.iter.elts}
+    ok = {"exp", "iat", "nbf"} <= covered
     ctx.check(ok, "R09.7", cc, cc.node, cc.short, "datetime values of exp / iat / nbf are not converted to NumericDate seconds with calendar.timegm(utctimetuple())",
               "for exp, iat, nbf: datetime -> calendar.timegm(claim.utctimetuple())", construct="NumericDate conversion")
     dumps = [s for s in eng.cg.calls_in(cc) if isinstance(s.node, ast.Call) and any(x == "json.dumps" for x in s.ext)]
